@@ -102,7 +102,7 @@ package age
 //@   fresh pt when err == nil && len(pt) > 0
 //@   modifies nothing
 
-//@ global digitsRe init "^[1-9][0-9]*$"     [C10 C14]
+//@ global digitsRe init "^[1-9][0-9]*$"     [C01 C05 C10 C14]
 
 //@ const X25519LABEL := "age-encryption.org/v1/X25519"
 //@ const SCRYPTLABEL := "age-encryption.org/v1/scrypt"
@@ -186,6 +186,7 @@ package age
 //@   ensures#calls $scryptcalls <= old($scryptcalls) + 1                                                                            [C10 C14]
 //@   ensures#frame i.password == old(i.password) && i.maxWorkFactor == old(i.maxWorkFactor)                                         [C20]
 //@   ensures#wrongkey (err != nil && $scryptcalls == old($scryptcalls) + 1 && len(block.Body) == 32) ==> err == ErrIncorrectIdentity   [C04]
+//@   ensures#nomatch (block.Type == "scrypt" && len(block.Args) == 2 && b64rawok(block.Args[0]) && len(unb64raw(block.Args[0])) == 16 && canondec(block.Args[1]) && atoi(block.Args[1]) <= i.maxWorkFactor && len(block.Body) == 32 && !openok(scryptKeyOf(bytes(i.password), unb64raw(block.Args[0]), atoi(block.Args[1])), zeros(12), bytes(block.Body))) ==> err == ErrIncorrectIdentity   [C04 C10]
 //@   ensures#ok err == nil ==> block.Type == "scrypt" && len(fk) == 16 && bytes(fk) == open(scryptKeyOf(bytes(i.password), unb64raw(block.Args[0]), atoi(block.Args[1])), zeros(12), bytes(block.Body))   [C01 C04]
 //@   ensures#opens (block.Type == "scrypt" && len(block.Args) == 2 && b64rawok(block.Args[0]) && len(unb64raw(block.Args[0])) == 16 && canondec(block.Args[1]) && atoi(block.Args[1]) <= i.maxWorkFactor && len(block.Body) == 32 && openok(scryptKeyOf(bytes(i.password), unb64raw(block.Args[0]), atoi(block.Args[1])), zeros(12), bytes(block.Body))) ==> err == nil   [C01 C05 C10]
 //@   modifies $scryptcalls
@@ -297,6 +298,7 @@ package age
 //@   ensures#draws $draws == old($draws) + 1                                                                            [C06]
 
 //@ func ParseIdentities(f) (ids, err)
+//@   ensures#scanerr err == nil ==> calls("Err",1) == old(calls("Err",1)) + 1 && lasterr("Err",1) == nil                          [C13 C18]
 //@   requires f != nil
 //@   loop 1 invariant scanner != nil && n == scanner.$ln && n >= 0
 //@   loop 1 invariant#count len(ids) == keycount(id(scanner), n)                                                  [C18]
@@ -307,6 +309,7 @@ package age
 //@   ensures#nil err != nil ==> ids == nil                                                                       [C14 C18]
 
 //@ func ParseRecipients(f) (recs, err)
+//@   ensures#scanerr err == nil ==> calls("Err",1) == old(calls("Err",1)) + 1 && lasterr("Err",1) == nil                          [C13 C18]
 //@   requires f != nil
 //@   loop 1 invariant scanner != nil && n == scanner.$ln && n >= 0
 //@   loop 1 invariant#count len(recs) == keycount(id(scanner), n)                                                 [C18]
